@@ -2,7 +2,7 @@
    Statements only, each closed by [exact]; the proofs are in Proofs/LEProofs.v, ExeNoPanic.v,
    ElfProofs.v, PeProofs.v.  Model: Model/LE.v, Elf.v, Pe.v (exe_utils.rs on byte lists). *)
 From RJ Require Import Base.Prelude Model.LE Model.Elf Model.Pe Model.ExeWitness Gen.Facts.
-From RJ Require Import Proofs.LEProofs Proofs.ExeNoPanic Proofs.ExeWitnessProofs.
+From RJ Require Import Proofs.LEProofs Proofs.ExeLemmas Proofs.ExeNoPanic Proofs.ExeWitnessProofs Proofs.ElfProofs.
 From Coq Require Import String.
 Local Open Scope N_scope.
 
@@ -64,5 +64,53 @@ Theorem C19_section_name_is_code :
   lenN impl_section_name <= 8 /\ ~ In zero impl_section_name /\ impl_section_name <> [].
 Proof. exact section_name_ok. Qed.
 
+(* ---------------------------------------------------------------------------------------------
+   ELF64.  [wf_elf e] (Proofs/ElfProofs.v): the name table starts after the 64-byte ELF header, is not
+   empty, ends with NUL, and every section's sh_name points into it.  Everything else a layout must
+   satisfy is implied by [add_elf .. = Ok _] (magic / 64 bit / little endian / v1, section header
+   table at the end of the file: e_shoff + e_shnum * e_shentsize = |e|, e_shentsize >= 40,
+   e_shstrndx < e_shnum, name table before the section header table, sizes representable).
+   [has_section e name]: some section's name, read the way extract_section_from_elf reads it (at most
+   32 bytes), equals [name] - extraction returns the FIRST match, so the premise matters.
+   [name_ok]: no NUL inside, at most 32 bytes (the read_string cap).  The size premise says the file
+   is far smaller than 2^64 bytes (true of every Vec<u8>; list lengths are unbounded in the model).
+   Holds for every payload (any length, any content) and every layout: any number of sections, any
+   position of the names section, any e_shentsize >= 40, any gaps. *)
+Theorem C19_elf_roundtrip : forall (m m' : mode) (e name p e' : list byte),
+  wf_elf e -> ~ has_section e name -> name_ok name ->
+  lenN e + lenN name + lenN p + 65537 < 18446744073709551616 ->
+  add_elf m e name p = Ok e' -> extract_elf m' e' name = Ok p.
+Proof. exact elf_roundtrip. Qed.
+
+(* What is preserved.  FULL statement aimed at (design.d/C19.md): bytes of e' below the insertion point
+   equal e's except e_shoff and e_shnum; every old section header is preserved except sh_offset
+   (+ |name|+1 for sections listed after the names section) and the names section's sh_size
+   (+ |name|+1); every old section's contents are found at its (shifted) offset.
+   PROVED here: the byte-level facts from which that follows - untouched prefix, inserted name, the
+   block between name table and old section header table moved up by |name|+1 unchanged, payload
+   position, new length, and all section header bytes outside the sh_offset fields of later sections
+   and the sh_size field of the names section.  NOT proved: the new *values* of those two kinds of
+   fields (only exercised by the differential check and the python oracle), hence "_partial".
+   Not claimed at all: program headers (the loader's view) - they are untouched iff they lie below
+   the insertion point, which the check verifies on the real binary. *)
+Theorem C19_elf_preserves_partial : forall (m : mode) (e name p e' : list byte),
+  wf_elf e ->
+  lenN e + lenN name + lenN p + 65537 < 18446744073709551616 ->
+  add_elf m e name p = Ok e' ->
+  let shoff := e_shoff e in let se := e_shentsize e in let shnum := e_shnum e in let sx := e_shstrndx e in
+  let pos := names_off e + names_size e in let k := lenN name + 1 in
+  lenN e = shoff + shnum * se /\ pos <= shoff /\ sx < shnum /\ 40 <= se /\
+  (forall o n, o + n <= pos -> (o + n <= 40 \/ 48 <= o) -> (o + n <= 60 \/ 62 <= o) -> subN e' o n = subN e o n) /\
+  fieldN e' 40 8 = shoff + k + lenN p /\ fieldN e' 60 2 = shnum + 1 /\
+  subN e' pos k = name ++ [zero] /\
+  subN e' (pos + k) (shoff - pos) = subN e pos (shoff - pos) /\
+  subN e' (shoff + k) (lenN p) = p /\
+  lenN e' = shoff + k + lenN p + (shnum + 1) * se /\
+  (forall o n, (forall j, sx < j < shnum -> o + n <= j * se + 24 \/ j * se + 32 <= o) ->
+               (o + n <= sx * se + 32 \/ sx * se + 40 <= o) -> o + n <= shnum * se ->
+               subN e' (shoff + k + lenN p + o) n = subN e (shoff + o) n).
+Proof. exact elf_preserves. Qed.
+
 Print Assumptions C19_no_panic.
+Print Assumptions C19_elf_roundtrip.
 Print Assumptions C19_no_panic_refuted.
